@@ -10,13 +10,13 @@ CHECKS["C11"] = {
     "title": "reference area, volumes, compactness, envelope membership, classifiers",
     "outside": [],
     "harnesses": [
-        {"name": "c11::classify_tilt", "bound": "every f32 in [-720,1080]; guard band 1e-3 deg at sector boundaries",
+        {"name": "c11::classify_tilt", "witness": True, "bound": "every f32 in [-720,1080]; guard band 1e-3 deg at sector boundaries",
          "functions": ["bemodel::Tilt::from(f32)", "bemodel::utils::normalize"]},
-        {"name": "c11::classify_orientation", "bound": "every f32 in [-720,1080]; guard band 1e-3 deg at sector boundaries",
+        {"name": "c11::classify_orientation", "witness": True, "bound": "every f32 in [-720,1080]; guard band 1e-3 deg at sector boundaries",
          "functions": ["bemodel::Orientation::from(f32)", "bemodel::utils::normalize"]},
-        {"name": "c11::tilt_parser_vs_model", "bound": "every f32 in [0,360]",
+        {"name": "c11::tilt_parser_vs_model", "witness": True, "bound": "every f32 in [0,360]",
          "functions": ["hulc::bdl::Wall::position", "bemodel::Tilt::from(f32)"]},
-        {"name": "c11::wall_orientation", "bound": "every pair of f32 in [-720,1080]^2",
+        {"name": "c11::wall_orientation", "witness": True, "bound": "every pair of f32 in [-720,1080]^2",
          "functions": ["bemodel::Orientation::from(&Wall)", "bemodel::Tilt::from(&Wall)"]},
     ],
 }
@@ -24,7 +24,7 @@ CHECKS["C11"] = {
 CHECKS["C17"] = {
     "title": "schedules",
     "harnesses": [
-        {"name": "c17::doy_calendar", "bound": "all 365 (day, month) pairs of a non-leap year",
+        {"name": "c17::doy_calendar", "witness": True, "bound": "all 365 (day, month) pairs of a non-leap year",
          "functions": ["bemodel::convert::from_ctehexml::day_of_year"]},
     ],
 }
@@ -32,12 +32,13 @@ CHECKS["C17"] = {
 CHECKS["C20"] = {
     "title": "solar geometry, radiation identities, tables (trig-free clauses)",
     "harnesses": [
-        {"name": "c20::nday_calendar", "bound": "all 365 (month, day) pairs of a non-leap year",
+        {"name": "c20::nday_calendar", "witness": True, "bound": "all 365 (month, day) pairs of a non-leap year",
          "functions": ["climate::solar::nday_from_md"]},
     ],
 }
 
-FS = ["--max-field-sensitivity-array-size", "256"]  # heap objects up to 256 bytes stay field-sensitive (constant propagation through Vec/Box)
+FS = ["--max-field-sensitivity-array-size", "256"]
+FS2K = ["--max-field-sensitivity-array-size", "2048"]  # Vec<Wall>/Vec<Space> buffers (4-8 elements of 100-140 bytes) stay field-sensitive  # heap objects up to 256 bytes stay field-sensitive (constant propagation through Vec/Box)
 
 CHECKS["C13"] = {
     "title": "ray casting: accelerated = exhaustive; exact geometry",
@@ -53,7 +54,7 @@ CHECKS["C13"] = {
          "timeout_quick": 900, "functions": ["BVH::build", "BVH::intersects", "AABB::intersects", "<[T] as Bounded>::aabb", "PreorderIter::next"]},
         {"name": "c13::bvh_leaf2", "tier": "thorough", "bound": "2 boxes, same grids, single leaf", "kani_args": NOOVF, "cbmc_args": FS,
          "functions": ["BVH::build", "BVH::intersects", "AABB::intersects", "AABB::join", "PreorderIter::next"]},
-        {"name": "c13::geo::aabb_slab", "bound": "box corners integers in [-4,7], origin integers in [-6,6]^3, doubled direction in {-2..2}^3 minus 0", "kani_args": NOOVF,
+        {"name": "c13::geo::aabb_slab", "witness": True, "bound": "box corners integers in [-4,7], origin integers in [-6,6]^3, doubled direction in {-2..2}^3 minus 0", "kani_args": NOOVF,
          "functions": ["AABB::intersects"]},
         {"name": "c13::geo::aabb_join_monotone", "bound": "2 grid boxes, grid ray", "kani_args": NOOVF, "cbmc_args": FS,
          "functions": ["AABB::intersects", "AABB::join", "<[T] as Bounded>::aabb"]},
@@ -120,9 +121,9 @@ CHECKS["C07"] = {
     "harnesses": [
         {"name": "c07::win_u_formula", "bound": "Ug,Uf in {k/4,k<=23}, g_n, Ff in {k/8,k<=8}, dU in {0,10,25,50}", "kani_args": NOOVF, "cbmc_args": FS, "stubs": FMT + ROUND,
          "functions": ["WinCons::u_value", "WinCons::g_glwi", "WinCons::g_glshwi", "fround2"]},
-        {"name": "c07::win_lookup", "bound": "concrete numbers; glazing / frame present or absent (decoys first in the db), user shading factor present or absent", "kani_args": NOOVF, "cbmc_args": FS, "stubs": FMT + ROUND,
+        {"name": "c07::win_lookup", "witness": True, "bound": "concrete numbers; glazing / frame present or absent (decoys first in the db), user shading factor present or absent", "kani_args": NOOVF, "cbmc_args": FS, "stubs": FMT + ROUND,
          "functions": ["WinCons::u_value", "WinCons::g_glwi", "WinCons::g_glshwi", "ConsDb::get_glass", "ConsDb::get_frame"]},
-        {"name": "c07::win_u_bounds", "bound": "Ug,Uf in {k/2, k<=12}, Ff in {0,1/4,1/2,3/4,1}, dU in {0,25,50}", "kani_args": NOOVF, "cbmc_args": FS, "stubs": FMT + ROUND,
+        {"name": "c07::win_u_bounds", "witness": True, "bound": "Ug,Uf in {k/2, k<=12}, Ff in {0,1/4,1/2,3/4,1}, dU in {0,25,50}", "kani_args": NOOVF, "cbmc_args": FS, "stubs": FMT + ROUND,
          "functions": ["WinCons::u_value", "fround2"]},
     ],
 }
@@ -132,7 +133,7 @@ CHECKS["C15"] = {
     "assumptions": ["bridge length is not NaN and not -0.0 (the statement says 'negative length'; is_sign_negative() flags -0.0 - recorded as an observation, not a finding)"],
     "outside": ["warning texts", "'the warnings returned with the indicators are the checker's' (EnergyIndicators::compute reads the climate statics)", "more than 2 walls / 2 windows / 2 bridges"],
     "harnesses": [
-        {"name": "c15::check_wall_first", "timeout_quick": 1500, "bound": "1 wall, 2 spaces, 2 constructions; space, construction and adjacent-space links in {valid a, valid b, nil, absent}; exact count; id and level of the first warning read back", "kani_args": NOOVF, "cbmc_args": FS, "stubs": FMT, "functions": ["bemodel::check"]},
+        {"name": "c15::check_wall_first", "timeout_quick": 1500, "mem_gb": 40, "bound": "1 wall, 2 spaces, 2 constructions; space, construction and adjacent-space links in {valid a, valid b, nil, absent}; exact count; id and level of the first warning read back", "kani_args": NOOVF, "cbmc_args": FS, "stubs": FMT, "functions": ["bemodel::check"]},
         {"name": "c15::check_win", "bound": "1 window; wall and construction links symbolic; ids read back", "kani_args": NOOVF, "cbmc_args": FS, "stubs": FMT, "functions": ["bemodel::check"]},
         {"name": "c15::check_tb", "bound": "2 bridges, any f32 length except NaN/-0.0; ids read back", "kani_args": NOOVF, "cbmc_args": FS, "stubs": FMT, "functions": ["bemodel::check"]},
         {"name": "c15::check_len_111", "bound": "1 wall + 1 window + 1 bridge, every link symbolic: exact number of warnings (ids not read back)", "kani_args": NOOVF, "cbmc_args": FS, "stubs": FMT, "functions": ["bemodel::check"]},
@@ -159,7 +160,7 @@ C06S = FMT + ROUND
 
 CHECKS["C06"] = {
     "title": "opaque U-values follow EN ISO 6946, 13370 and 13789",
-    "outside": ["QUICK TIER: only the numeric kernels (layer resistance, air-contact U, partition formula) and monotonicity are decided; the ground-contact kernels and every dispatch harness through Wall::u_value(&Model) (which surface resistance / which space / which kernel) are registered in the thorough tier only: measured 8-25 min or out of memory at 40 GB each",
+    "outside": ["ground-contact numeric kernels, sum(Ae*Ue) bookkeeping and the basement-wall dispatch are in the thorough tier only (10-27 min each); the slab-on-ground dispatch through Wall::u_value (u_ground_slab) did not finish in 45 min and is not registered: that the slab kernel receives the right d_t, B' and psi is NOT decided",
                 "numeric value of ln (uninterpreted)", "tolerance statements for arbitrary reals: the mirror oracle pins formula, constants, branch structure and operand order, not conditioning",
                 "stacks deeper than 3 layers", "unconditioned spaces with more than 2 bounding exterior elements", "U of partitions between equally conditioned spaces with a neighbour (the statement does not define it): only 'has a value' is asserted"],
     "harnesses": [
@@ -169,14 +170,20 @@ CHECKS["C06"] = {
         {"name": "c06::u_gnd_slab_kernel", "tier": "thorough", "timeout_thorough": 2700, "bound": "z in {k/2,k<=7}, d_t in {(k+1)/4}, B' in {(k+1)/2}, k<=15, psi in {-k/8,k<=7}", "kani_args": NOOVF, "cbmc_args": FS, "stubs": C06S + LN, "functions": ["Wall::u_value_gnd_slab"]},
         {"name": "c06::u_gnd_wall_kernel", "tier": "thorough", "timeout_thorough": 2700, "bound": "z in {k/2,k<=7}, U_w, d_t in {(k+1)/4,k<=15}, h in {(k+1)/2,k<=7}", "kani_args": NOOVF, "cbmc_args": FS, "stubs": C06S + LN, "functions": ["Wall::u_value_gnd_wall"]},
         {"name": "c06::u_gnd_dt_psi", "tier": "thorough", "timeout_thorough": 2700, "bound": "1 ground slab of side 1..4 (+2 decoy floors), slab resistance in {k/4,k<=15}, construction present/absent, Rn in {k/2,k<=7}, D in {k/4,k<=7}, d_t in {(k+1)/4}", "kani_args": NOOVF, "cbmc_args": FS, "stubs": C06S + LN, "functions": ["Space::slab_d_t", "Space::slab_psi_gnd_ext"]},
-        {"name": "c06::dispatch::u_dispatch_air", "tier": "thorough", "timeout_thorough": 2700, "mem_gb": 40, "bound": "concrete construction (R=1.75); symbolic: 4 boundary kinds x tilt {0,90,180} x construction/material present x lambda > 0", "kani_args": NOOVF, "cbmc_args": FS, "stubs": C06S, "functions": ["Wall::u_value", "WallCons::resistance", "Wall::u_value_exterior"]},
-        {"name": "c06::dispatch::u_dispatch_partition", "tier": "thorough", "timeout_thorough": 2700, "mem_gb": 40, "bound": "concrete geometry; symbolic: 3x3 space kinds, tilt {0,90,180}, neighbour none/valid/dangling, per-space n_v present or not, building ventilation present or not", "kani_args": NOOVF, "cbmc_args": FS, "stubs": C06S, "timeout_quick": 1500,
+        {"name": "c06::dispatch::u_dispatch_air", "bound": "concrete construction (R=1.75); symbolic: 4 boundary kinds x tilt {0,90,180} x construction/material present x lambda > 0", "kani_args": NOOVF, "cbmc_args": FS2K, "stubs": C06S, "functions": ["Wall::u_value", "WallCons::resistance", "Wall::u_value_exterior"]},
+        {"name": "c06::dispatch::u_dispatch_partition", "timeout_quick": 1200, "bound": "concrete geometry; symbolic: 3x3 space kinds, tilt {0,90,180}, neighbour none/valid/dangling, per-space n_v present or not, building ventilation present or not", "kani_args": NOOVF, "cbmc_args": FS2K, "stubs": C06S, "timeout_quick": 1500,
          "functions": ["Wall::u_value", "Space::ua_of_external_and_ground_surfaces", "Model::global_ventilation_rate", "Space::area", "Space::height_net", "Wall::u_value_interior_cond_uncond"]},
-        {"name": "c06::dispatch::u_ua_sum", "tier": "thorough", "timeout_thorough": 2700, "mem_gb": 40, "bound": "1 roof + 1 side element (4 boundary kinds, own/adjacent side, construction present or not) + 0..1 window (construction present or not)", "kani_args": NOOVF, "cbmc_args": FS, "stubs": C06S, "functions": ["Space::ua_of_external_and_ground_surfaces", "Wall::area_net", "WinCons::u_value"]},
-        {"name": "c06::dispatch::u_dispatch_ground", "tier": "thorough", "timeout_thorough": 2700, "mem_gb": 40, "bound": "tilt {0,90,180}, space z in {-3..1}, space present or not, ground slab present or not", "kani_args": NOOVF, "cbmc_args": FS, "stubs": C06S + LN, "timeout_quick": 900,
+        {"name": "c06::dispatch::u_ua_sum", "tier": "thorough", "timeout_thorough": 2700, "bound": "1 roof + 1 side element (4 boundary kinds, own/adjacent side, construction present or not) + 0..1 window (construction present or not)", "kani_args": NOOVF, "cbmc_args": FS2K, "stubs": C06S, "functions": ["Space::ua_of_external_and_ground_surfaces", "Wall::area_net", "WinCons::u_value"]},
+        {"name": "c06::dispatch::u_ground_top", "bound": "buried roof, space z in {-3..1}", "kani_args": NOOVF, "cbmc_args": FS2K, "stubs": C06S + LN, "timeout_quick": 900,
          "functions": ["Wall::u_value", "Space::slab_d_t", "Space::slab_psi_gnd_ext", "Space::slab_char_dim", "Wall::u_value_gnd_slab", "Wall::u_value_gnd_wall"]},
-        {"name": "c06::dispatch::u_char_dim", "tier": "thorough", "timeout_thorough": 2700, "mem_gb": 40, "bound": "floor 4x5, two side walls with 4 boundary kinds each, 3x3 space kinds, neighbour none/valid/dangling", "kani_args": NOOVF, "cbmc_args": FS, "stubs": C06S, "functions": ["Space::slab_char_dim"]},
-        {"name": "c06::dispatch::u_monotone", "bound": "thickness k/8, R k/4, lambda in {0.4,1.0,2.3}, tilt {0,90,180}, exterior or partition without neighbour", "kani_args": NOOVF, "cbmc_args": FS, "stubs": C06S, "functions": ["Wall::u_value"]},
+        {"name": "c06::dispatch::u_ground_slab", "tier": "off", "bound": "slab on ground, space z in {-3..1}", "kani_args": NOOVF, "cbmc_args": FS2K, "stubs": C06S + LN, "timeout_quick": 900,
+         "functions": ["Wall::u_value", "Space::slab_d_t", "Space::slab_psi_gnd_ext", "Space::slab_char_dim", "Wall::u_value_gnd_slab", "Wall::u_value_gnd_wall"]},
+        {"name": "c06::dispatch::u_ground_wall", "tier": "thorough", "timeout_thorough": 2700, "bound": "basement wall, space z in {-3..1}", "kani_args": NOOVF, "cbmc_args": FS2K, "stubs": C06S + LN, "timeout_quick": 900,
+         "functions": ["Wall::u_value", "Space::slab_d_t", "Space::slab_psi_gnd_ext", "Space::slab_char_dim", "Wall::u_value_gnd_slab", "Wall::u_value_gnd_wall"]},
+        {"name": "c06::dispatch::u_ground_missing", "bound": "ground element whose space is missing or has no ground slab", "kani_args": NOOVF, "cbmc_args": FS2K, "stubs": C06S + LN, "timeout_quick": 900,
+         "functions": ["Wall::u_value", "Space::slab_d_t", "Space::slab_psi_gnd_ext", "Space::slab_char_dim", "Wall::u_value_gnd_slab", "Wall::u_value_gnd_wall"]},
+        {"name": "c06::dispatch::u_char_dim", "bound": "floor 4x5, two side walls with 4 boundary kinds each, 3x3 space kinds, neighbour none/valid/dangling", "kani_args": NOOVF, "cbmc_args": FS2K, "stubs": C06S, "functions": ["Space::slab_char_dim"]},
+        {"name": "c06::dispatch::u_monotone", "bound": "thickness k/8, R k/4, lambda in {0.4,1.0,2.3}, tilt {0,90,180}, exterior or partition without neighbour", "kani_args": NOOVF, "cbmc_args": FS2K, "stubs": C06S, "functions": ["Wall::u_value"]},
     ],
 }
 
@@ -201,7 +208,7 @@ CHECKS["C11"]["outside"] = ["scale factors that are not powers of two", "models 
 
 CHECKS["C17"]["harnesses"] += [
     {"name": "c17::sched::week_to_days", "tier": "thorough", "timeout_thorough": 2700, "bound": "weekly schedules of two runs (3+4, 0+7), daily ids symbolic", "kani_args": NOOVF, "cbmc_args": FS, "functions": ["ScheduleWeek::to_day_sch"]},
-    {"name": "c17::sched::end_dates_partition", "bound": "every increasing list of 3 end dates ending on 31 Dec", "functions": ["convert::from_ctehexml::day_of_year"]},
+    {"name": "c17::sched::end_dates_partition", "witness": True, "bound": "every increasing list of 3 end dates ending on 31 Dec", "functions": ["convert::from_ctehexml::day_of_year"]},
     {"name": "c17::sched::year_as_days", "tier": "thorough", "timeout_thorough": 2700, "bound": "3 periods of (3,2,4) days over weekly schedules with runs (2+5) and (5+2): lengths concrete, the daily schedules the runs refer to symbolic", "kani_args": NOOVF, "cbmc_args": FS, "stubs": FMT, "timeout_quick": 900,
      "functions": ["SchedulesDb::get_year_as_day_sch", "ScheduleWeek::to_day_sch"]},
     {"name": "c17::sched::year_as_days_b", "tier": "thorough", "timeout_thorough": 2700, "bound": "periods (8,0,2) with runs (1+6) and (1,3,5) with runs (3+4, 0+7) and a missing weekly schedule for the third period", "kani_args": NOOVF, "cbmc_args": FS, "stubs": FMT, "timeout_quick": 900,
@@ -236,10 +243,10 @@ CHECKS["C19"] = {
     "title": "damaged project files: typed-value kernels do not crash (partial)",
     "outside": ["everything between bytes and typed values: deleted/duplicated lines, truncation, numbers replaced by text, the XML layer, kyg/tbl readers (string parsing is not executable symbolically)", "hangs"],
     "harnesses": [
-        {"name": "c19::edge_vertices_total", "bound": "vertex name 'V'+one digit, outline of 0..4 vertices", "kani_args": NOOVF, "cbmc_args": FS, "stubs": FMT, "functions": ["hulc::bdl::Polygon::edge_vertices"]},
+        {"name": "c19::edge_vertices_total", "witness": True, "bound": "vertex name 'V'+one digit, outline of 0..4 vertices", "kani_args": NOOVF, "cbmc_args": FS, "stubs": FMT, "functions": ["hulc::bdl::Polygon::edge_vertices"]},
         {"name": "c19::polygon_ops_total", "bound": "outline of 0..3 vertices on integer grid", "kani_args": NOOVF, "cbmc_args": FS, "functions": ["hulc::bdl::Polygon::area", "hulc::bdl::Polygon::mirror_y"]},
-        {"name": "c19::dates_total", "bound": "any (day, month) in 0..=99", "functions": ["convert::from_ctehexml::day_of_year"]},
-        {"name": "c19::tilt_any_total", "bound": "every f32 bit pattern", "kani_args": NOOVF, "functions": ["hulc::bdl::Wall::position", "bemodel::Tilt::from(f32)"]},
+        {"name": "c19::dates_total", "witness": True, "bound": "any (day, month) in 0..=99", "functions": ["convert::from_ctehexml::day_of_year"]},
+        {"name": "c19::tilt_any_total", "witness": True, "bound": "every f32 bit pattern", "kani_args": NOOVF, "functions": ["hulc::bdl::Wall::position", "bemodel::Tilt::from(f32)"]},
     ],
 }
 
@@ -248,10 +255,10 @@ CHECKS["C04"] = {
     "pre": "serde_scan",
     "outside": ["serialise -> parse text identity and idempotence (serde_json: std BTreeMap + float printing/parsing)", "untagged/flattened MatProps disambiguation", "the seven shipped model files", "renamed or re-typed fields"],
     "harnesses": [
-        {"name": "c04::skip_multiplier", "bound": "every f32 bit pattern", "functions": ["utils::multiplier_is_1", "utils::default_1"]},
-        {"name": "c04::skip_true", "bound": "both booleans", "functions": ["utils::is_true", "utils::default_true"]},
-        {"name": "c04::skip_default_f32", "bound": "every f32 bit pattern", "functions": ["utils::is_default::<f32>"]},
-        {"name": "c04::skip_default_enums", "bound": "all SpaceType and ThermalBridgeKind values", "functions": ["utils::is_default::<SpaceType>", "utils::is_default::<ThermalBridgeKind>"]},
+        {"name": "c04::skip_multiplier", "witness": True, "bound": "every f32 bit pattern", "functions": ["utils::multiplier_is_1", "utils::default_1"]},
+        {"name": "c04::skip_true", "witness": True, "bound": "both booleans", "functions": ["utils::is_true", "utils::default_true"]},
+        {"name": "c04::skip_default_f32", "witness": True, "bound": "every f32 bit pattern", "functions": ["utils::is_default::<f32>"]},
+        {"name": "c04::skip_default_enums", "witness": True, "bound": "all SpaceType and ThermalBridgeKind values", "functions": ["utils::is_default::<SpaceType>", "utils::is_default::<ThermalBridgeKind>"]},
         {"name": "c04::skip_empty_containers", "bound": "each part of ConsDb / SchedulesDb / PropsOverrides empty or holding one item", "cbmc_args": FS, "functions": ["ConsDb::is_empty", "SchedulesDb::is_empty", "PropsOverrides::is_empty"]},
     ],
 }
@@ -260,7 +267,7 @@ CHECKS["C03"] = {
     "title": "conversion: azimuth convention and outline mirroring (partial)",
     "outside": ["every position (products of rotation matrices: sin/cos are not interpreted by CBMC)", "wall_geometry as a whole (string-keyed lookups)", "window placement, shades, invariance of areas/volumes/U/K/n50 under rotation"],
     "harnesses": [
-        {"name": "c03::azimuth_convention", "bound": "every quarter-degree azimuth in [-360,720]", "kani_args": NOOVF, "unwindset": [[r"c03::azimuth_convention", 5]], "functions": ["convert::orientation_bdl_to_52016", "convert::normalize_azimuth", "utils::normalize"]},
+        {"name": "c03::azimuth_convention", "witness": True, "bound": "every quarter-degree azimuth in [-360,720]", "kani_args": NOOVF, "unwindset": [[r"c03::azimuth_convention", 5]], "functions": ["convert::orientation_bdl_to_52016", "convert::normalize_azimuth", "utils::normalize"]},
         {"name": "c03::azimuth_shift", "bound": "every pair (azimuth, delta) on the quarter-degree grid in [0,360)^2", "kani_args": NOOVF, "unwindset": [[r"c03::azimuth_shift", 5]], "functions": ["convert::orientation_bdl_to_52016"]},
         {"name": "c03::mirror_y_outline", "bound": "outline of 1..4 vertices on integer grid [-4,4]^2", "kani_args": NOOVF, "cbmc_args": FS, "functions": ["hulc::bdl::Polygon::mirror_y"]},
     ],
